@@ -993,15 +993,18 @@ class Job:
         state = dict(self.__dict__)
         # Locks are not pickleable and must be removed from the state
         del state["_lock"]
+        # The state point instance refers to all shallow copies of this job.
+        # Only its data is pickled, the instance is created again on access.
+        statepoint = state.pop("_statepoint", None)
+        if not state["_statepoint_requires_init"]:
+            state["_cached_statepoint"] = statepoint()
+            state["_statepoint_requires_init"] = True
         return state
 
     def __setstate__(self, state):
         # Locks are not pickleable and must be added back to the state
         state["_lock"] = RLock()
         self.__dict__.update(state)
-        # We append to a list of jobs rather than replacing to support
-        # transparent id updates between shallow copies of a job.
-        self.statepoint._jobs.append(self)
 
     def __copy__(self):
         # Shallow copies share a single state point instance, through which they
@@ -1013,7 +1016,12 @@ class Job:
             # The state point cannot be loaded (e.g. corrupted job): copy as is.
             pass
         result = self.__class__.__new__(self.__class__)
-        result.__setstate__(self.__getstate__())
+        result.__dict__.update(self.__dict__)
+        result._lock = RLock()
+        if not result._statepoint_requires_init:
+            # We append to a list of jobs rather than replacing to support
+            # transparent id updates between shallow copies of a job.
+            result._statepoint._jobs.append(result)
         return result
 
     def __deepcopy__(self, memo):
